@@ -1952,6 +1952,7 @@ class Builder:
     def sdk_epr_rsp_create(
         self,
         params: EntRequestParams,
+        reset_results_array: bool = False,
     ) -> List[EprMeasureResult]:
         """Build commands for a 'create remote state preparation' EPR operation
         and return the result futures."""
@@ -1970,6 +1971,9 @@ class Builder:
 
         wait_all = params.post_routine is None
 
+        if reset_results_array:
+            self._build_cmds_undefine_array(ent_results_array)
+
         # Construct and add the NetQASM instructions
         self._build_cmds_epr_create_rsp(
             create_args_array, ent_results_array, wait_all, params
@@ -1982,6 +1986,7 @@ class Builder:
     def sdk_epr_rsp_recv(
         self,
         params: EntRequestParams,
+        reset_results_array: bool = False,
     ) -> Tuple[List[Qubit], List[EprKeepResult]]:
         """Build commands for a 'receive remote state preparation' EPR operation
         and return the created qubits and result futures."""
@@ -2008,6 +2013,9 @@ class Builder:
         qubit_ids_array = self.alloc_array(init_values=virtual_qubit_ids)  # type: ignore
 
         wait_all = params.post_routine is None
+
+        if reset_results_array:
+            self._build_cmds_undefine_array(ent_results_array)
 
         # Construct and add the NetQASM instructions
         self._build_cmds_epr_recv_rsp(
@@ -2128,7 +2136,11 @@ class Builder:
             # If a min-fidelity constraint is specified, wrap the operation in a loop
             assert params.max_tries is not None
             with self.sdk_new_loop_until_context(params.max_tries) as loop:
-                results = self.sdk_epr_rsp_create(params=params)
+                # each attempt starts from an undefined results array: the wait must
+                # not be satisfied by what the previous attempt left there
+                results = self.sdk_epr_rsp_create(
+                    params=params, reset_results_array=True
+                )
                 duration = results[-1].generation_duration
                 max_time = NVEprCompiler.get_max_time_for_fidelity(
                     params.min_fidelity_all_at_end
@@ -2150,12 +2162,23 @@ class Builder:
             # If a min-fidelity constraint is specified, wrap the operation in a loop
             assert params.max_tries is not None
             with self.sdk_new_loop_until_context(params.max_tries) as loop:
-                qubits, results = self.sdk_epr_rsp_recv(params=params)
+                qubits, results = self.sdk_epr_rsp_recv(
+                    params=params, reset_results_array=True
+                )
                 duration = results[-1].generation_duration
                 max_time = NVEprCompiler.get_max_time_for_fidelity(
                     params.min_fidelity_all_at_end
                 )
                 loop.set_exit_condition(ValueAtMostConstraint(duration, max_time))
+
+                def cleanup(_: BaseNetQASMConnection):
+                    # free the qubits of an attempt that was too slow: the next
+                    # attempt maps its pairs onto the same virtual IDs
+                    if not params.sequential:
+                        for q in qubits:
+                            self._build_cmds_qfree(q.qubit_id)
+
+                loop.set_cleanup_code(cleanup)
             return qubits, results
         else:
             # otherwise, just do the operation once
